@@ -11,6 +11,7 @@ Limit(name) ==
     [] name = "points" -> 255 [] name = "channels" -> 255 [] name = "frames" -> 32767
     [] name = "int_max" -> 32767 [] name = "int_min" -> 32768      \* magnitude of the most negative value
     [] name = "param_blocks" -> 255 [] name = "record_bytes" -> 65535
+    [] name = "group_id" -> 127               \* group ids are one signed byte (also for groups that follow unused ids of a loaded file)
     [] name = "section_bytes" -> 130559       \* prologue + records, leaving at least the terminator byte inside 255 blocks
 Within(comps) == \A i \in 1..Len(comps) : comps[i].v <= Limit(comps[i].limit)
 
@@ -26,7 +27,7 @@ SaveLoad(c) == \E s \in {"ok", "refused"}, l \in {"ok", "refused", "na"}, eq \in
 NeverSilentlyDifferent == (save = "ok" /\ ~(load = "ok" /\ same = 1)) => FALSE
 
 (* ---- model instance: every limit at L-1, L, L+1, far beyond, alone ---- *)
-Names == {"param_desc", "param_name", "group_name", "dim_entry", "str_count", "ndims", "points", "channels", "frames", "int_max", "int_min", "param_blocks", "record_bytes", "section_bytes"}
+Names == {"param_desc", "param_name", "group_name", "dim_entry", "str_count", "ndims", "points", "channels", "frames", "int_max", "int_min", "param_blocks", "record_bytes", "section_bytes", "group_id"}
 MCNext == \E n \in Names, d \in {-1, 0, 1, 50} : SaveLoad(<<[limit |-> n, v |-> Limit(n) + d]>>)
 
 =============================================================================
